@@ -13,6 +13,49 @@ fn main() {
         }
         return;
     }
+    if args.first().map(|s| s.as_str()) == Some("fuzz-replay") && args.len() >= 2 {
+        // run the model-free oracles of the fuzz_text target on a saved input
+        let data = std::fs::read(&args[1]).unwrap_or_default();
+        let Ok(text) = String::from_utf8(data) else {
+            println!("OK (not UTF-8: ignored by the target)");
+            return;
+        };
+        let env = vh::core::make_env(Tier::Thorough, true);
+        let mut st = vh::core::Stats::default();
+        match vh::fuzzing::check_input(&env, &text, &mut st) {
+            Ok(()) => println!("OK all selected oracles hold on this input"),
+            Err(e) => {
+                println!("ORACLE-FAILURE {e}");
+                std::process::exit(1);
+            }
+        }
+        return;
+    }
+    if args.first().map(|s| s.as_str()) == Some("fuzz-replay-struct") && args.len() >= 2 {
+        let data = std::fs::read(&args[1]).unwrap_or_default();
+        if data.len() < 9 {
+            println!("OK (too short)");
+            return;
+        }
+        let sel = std::env::var("VERIF_ORACLES").unwrap_or_default();
+        let props: Vec<_> = vh::props::all()
+            .into_iter()
+            .filter(|p| sel.is_empty() || sel.split(',').any(|x| x.trim() == p.id()))
+            .collect();
+        let p = &props[data[0] as usize % props.len()];
+        let env = vh::core::make_env(Tier::Thorough, true);
+        let mut st = vh::core::Stats::default();
+        match p.random(&env, &data[1..], &mut st) {
+            Ok(()) => println!("OK property {} holds on this choice sequence", p.id()),
+            Err(f) if f.harness_error => println!("HARNESS-ERROR {}", f.msg),
+            Err(f) => {
+                println!("ORACLE-FAILURE {}: {}", p.id(), f.msg);
+                println!("CASE {}", vh::core::bytes_case(&data[1..], serde_json::json!({})));
+                std::process::exit(1);
+            }
+        }
+        return;
+    }
     if args.len() < 2 {
         usage();
     }
